@@ -58,6 +58,8 @@ pub struct Snap {
     pub entries: BTreeMap<String, (u64, usize)>,
     pub queue: Vec<String>,
     pub stats: (u64, u64),
+    /// white-box: per key (birth: ns of simulated time for sync flavours / unix seconds for async, frequency)
+    pub hidden: BTreeMap<String, (i64, u64)>,
 }
 
 pub trait Drv<V: HVal> {
@@ -126,6 +128,7 @@ macro_rules! l1_type {
                         entries: G_MAP.read().iter().map(|(k, e)| (k.clone(), (e.value.stamp(), e.value.fp()))).collect(),
                         queue: G_ORDER.lock().iter().cloned().collect(),
                         stats: (G_STATS.hits(), G_STATS.misses()),
+                        hidden: G_MAP.read().iter().map(|(k, e)| (k.clone(), (seams::peek_now_ns() - e.inserted_at.elapsed().as_nanos() as i64, e.frequency))).collect(),
                     }
                 }
             }
@@ -182,6 +185,7 @@ macro_rules! l1_type {
                         entries: T_MAP.with(|m| m.borrow().iter().map(|(k, e)| (k.clone(), (e.value.stamp(), e.value.fp()))).collect()),
                         queue: T_ORDER.with(|o| o.borrow().iter().cloned().collect()),
                         stats: T_STATS.with(|s| *s.borrow()),
+                        hidden: T_MAP.with(|m| m.borrow().iter().map(|(k, e)| (k.clone(), (seams::peek_now_ns() - e.inserted_at.elapsed().as_nanos() as i64, e.frequency))).collect()),
                     }
                 }
             }
@@ -226,6 +230,7 @@ macro_rules! l1_type {
                         entries: A_MAP.iter().map(|e| (e.key().clone(), (e.value().0.stamp(), e.value().0.fp()))).collect(),
                         queue: A_ORDER.lock().iter().cloned().collect(),
                         stats: (A_STATS.hits(), A_STATS.misses()),
+                        hidden: A_MAP.iter().map(|e| (e.key().clone(), (e.value().1 as i64, e.value().2))).collect(),
                     }
                 }
             }
@@ -290,6 +295,9 @@ pub fn exec(case: &Case1, log: Option<&mut Vec<String>>) -> Exec1 {
 pub struct Exec1 {
     /// first deviation from the model: (index of the operation, clause)
     pub deviation: Option<(usize, Clause)>,
+    /// first divergence of the bookkeeping the properties name (birth time, hit counter, queue
+    /// order) from the model, used ONLY to attribute a later behavioural deviation to its cause
+    pub hidden_divergence: Option<(usize, &'static str)>,
     pub ops_done: usize,
     pub sim_ns: i64,
     pub counters: Counters,
@@ -477,7 +485,22 @@ fn exec_generic<V: HVal>(drv: &dyn Drv<V>, case: &Case1, mut log: Option<&mut Ve
                 // leave the (possibly half-updated) cache behind: the next run resets it
                 break;
             }
-            Ok(Err(c)) => {
+            Ok(Err(mut c)) => {
+                if let Some((j, field)) = out.hidden_divergence {
+                    if c.name != "stats_mismatch" && c.name != "panic" {
+                        // the behaviour is wrong now because bookkeeping went wrong earlier: blame the cause
+                        let owner = match field {
+                            "birth" => "C06",
+                            "frequency" => "C08",
+                            _ => match p.policy {
+                                Policy::Fifo | Policy::Lru => "C07",
+                                _ => "C08",
+                            },
+                        };
+                        c.owners = vec![owner.to_string()];
+                        c.detail = format!("{} (root cause: the {field} bookkeeping diverged from the specification at operation {j} {:?})", c.detail, case.ops[j]);
+                    }
+                }
                 out.deviation = Some((i, c));
                 break;
             }
@@ -485,11 +508,54 @@ fn exec_generic<V: HVal>(drv: &dyn Drv<V>, case: &Case1, mut log: Option<&mut Ve
                 model = m2;
                 out.states.insert(state_hash(&model));
                 out.ops_done += 1;
+                if out.hidden_divergence.is_none() && !matches!(op, Op1::Adv(_)) {
+                    if let Some(f) = hidden_field_divergence(&model, p, &drv.snap(), now) {
+                        out.hidden_divergence = Some((i, f));
+                        out.counters.inc(&format!("whitebox.divergence.{}", f.replace(' ', "_")));
+                    }
+                }
             }
         }
     }
     out.digest = digest;
     out
+}
+
+/// White-box comparison of the bookkeeping named by the properties (never a verdict by itself).
+fn hidden_field_divergence(m: &Model, p: &Params, snap: &Snap, _now: i64) -> Option<&'static str> {
+    for (k, e) in &m.e {
+        let ks = key_str(*k);
+        if let Some((birth, freq)) = snap.hidden.get(&ks) {
+            let exp_birth = if p.flavour == Flavour::Async {
+                seams::EPOCH_BASE_SECS + e.birth_ns.div_euclid(SEC)
+            } else {
+                e.birth_ns
+            };
+            if *birth != exp_birth {
+                return Some("birth");
+            }
+            if *freq != e.hits {
+                return Some("frequency");
+            }
+        }
+    }
+    // queue order, only when the queue is exactly a permutation of the stored keys
+    let stored: BTreeSet<&String> = snap.entries.keys().collect();
+    let q: BTreeSet<&String> = snap.queue.iter().collect();
+    let bounded = p.limit.is_some() || p.max_memory.is_some();
+    if snap.queue.len() == stored.len() && q == stored && (p.flavour != Flavour::Async || bounded) {
+        let mut exp: Vec<(u64, String)> = m
+            .e
+            .iter()
+            .map(|(k, e)| (if p.policy.tracks_recency() { e.used_seq } else { e.stored_seq }, key_str(*k)))
+            .collect();
+        exp.sort();
+        let exp: Vec<String> = exp.into_iter().map(|x| x.1).collect();
+        if exp != snap.queue {
+            return Some("queue order");
+        }
+    }
+    None
 }
 
 /// Observations that need the real values: independent footprint total, statistics.
